@@ -628,6 +628,7 @@ pub fn run(e: &Engine) {
     }
     e.set_shrink_iters(40);
     for b in [Backend::GitLocal, Backend::GitRemote] {
+        e.set_worker_cap(4);
         e.campaign(
             &format!("chain-{b:?}"),
             rule,
@@ -640,6 +641,7 @@ pub fn run(e: &Engine) {
     for b in [Backend::Local2, Backend::ObjectStore, Backend::Http, Backend::GitLocal, Backend::GitRemote] {
         let git = matches!(b, Backend::GitLocal | Backend::GitRemote);
         e.set_shrink_iters(if git { 40 } else { 2000 });
+        e.set_worker_cap(if git { 4 } else { u64::MAX });
         e.campaign(
             &format!("replicas-through-{b:?}"),
             "two real replicas run a generated commit/sync history through the backend, then quiesce; both must equal the reference replay of a walk of the backend's chain from the root through a fresh handle; non-trivial = a chain of >= 2 versions",
